@@ -1180,7 +1180,7 @@ def m_str_invalid(g, c):
     asks = [lenient.encode()]
     if not bmp and b'\0' not in raw:
         asks.append(raw)
-    v = r.randrange(4 if not bmp else 2) if not bmp else r.choice([0, 2])
+    v = r.choice([0, 2]) if bmp else r.randrange(4)
     if v == 0:      # CN only: the CN is what the server name is matched against
         _set_names(c, [(st, raw)], False, r.choice(asks))
         c['_ne'] = [_req('dn', 'CN', g, len(raw))]
